@@ -121,4 +121,7 @@ type SStep struct {
 	// CtxUs: context of a stopctx / validate step (0 background, -1 already cancelled)
 	CtxUs int64  `json:"ctx_us,omitempty"`
 	Act   string `json:"act,omitempty"` // name of the model action this step stands for
+	// Exp: what the model predicts at this point (advance steps: the model is quiescent there); copied into a script_at
+	// event for the orchestrator's state comparison, opaque here
+	Exp json.RawMessage `json:"exp,omitempty"`
 }
